@@ -106,7 +106,8 @@ let () =
   let out = Buffer.create 65536 in
   (try while true do
     let line = input_line ic in
-    if String.length line > 0 then begin
+    (* side-channel lines ("!VIOL", "!ASSUME", "!INFO") carry no case: the runner reads them itself *)
+    if String.length line > 0 && line.[0] <> '!' then begin
       let verdict =
         try
           let tab = String.index line '\t' in
